@@ -17,7 +17,7 @@ import (
 
 	"golang.org/x/crypto/ssh"
 
-	"github.com/theparanoids/ysshra/keyid"
+	"fmt"
 )
 
 // Key is a pooled key pair.
@@ -188,9 +188,11 @@ type KeyIDSpec struct {
 
 // YSSHCAKeyID returns a well-formed version-1 KeyID text (raw JSON, no codec checks).
 func YSSHCAKeyID(s KeyIDSpec) string {
-	k := keyid.KeyID{Principals: s.Prins, TransID: s.TransID, ReqUser: "u", ReqIP: "10.0.0.1", ReqHost: "h", IsFirefighter: s.FF, IsHWKey: s.HW, IsHeadless: s.Headless, IsNonce: s.Nonce, TouchPolicy: keyid.TouchPolicy(s.Touch), Version: 1}
-	b, _ := json.Marshal(&k)
-	return string(b)
+	// written out member by member (the codec under test is not used to build its own test inputs)
+	pj, _ := json.Marshal(s.Prins)
+	tj, _ := json.Marshal(s.TransID)
+	return fmt.Sprintf(`{"prins":%s,"transID":%s,"reqUser":"u","reqIP":"10.0.0.1","reqHost":"h","isFirefighter":%v,"isHWKey":%v,"isHeadless":%v,"isNonce":%v,"usage":0,"touchPolicy":%d,"ver":1}`,
+		pj, tj, s.FF, s.HW, s.Headless, s.Nonce, s.Touch)
 }
 
 // RefIsYSSHCA is the harness's reference predicate "this KeyID decodes as a YSSHCA KeyID".
@@ -199,7 +201,21 @@ func RefIsYSSHCA(text string) bool {
 	if json.Unmarshal([]byte(text), &m) != nil || m == nil {
 		return false
 	}
-	var k keyid.KeyID
+	// the attribute types as the format defines them, written out here (not borrowed from the codec under test)
+	var k struct {
+		Principals    []string `json:"prins"`
+		TransID       string   `json:"transID"`
+		ReqUser       string   `json:"reqUser"`
+		ReqIP         string   `json:"reqIP"`
+		ReqHost       string   `json:"reqHost"`
+		IsFirefighter bool     `json:"isFirefighter"`
+		IsHWKey       bool     `json:"isHWKey"`
+		IsHeadless    bool     `json:"isHeadless"`
+		IsNonce       bool     `json:"isNonce"`
+		Usage         int64    `json:"usage"`
+		TouchPolicy   int64    `json:"touchPolicy"`
+		Version       uint16   `json:"ver"`
+	}
 	if json.Unmarshal([]byte(text), &k) != nil {
 		return false
 	}
